@@ -50,7 +50,35 @@ def random_rule_params(rng, maxn=14):
 
 def make_rule(params, cache):
     from dateutil import rrule as R
-    return R.rrule(cache=cache, **params)
+    import warnings
+    with warnings.catch_warnings():
+        warnings.simplefilter("ignore")            # count together with until is deprecated, still supported
+        return R.rrule(cache=cache, **params)
+
+
+def until_variants(rng, p, k=3):
+    """UNTIL-bounded (and COUNT+UNTIL) versions of the count-bounded parameters p:
+    [(params, special instants)] with until at an occurrence, one second off, between occurrences, at / before dtstart"""
+    L = ints(list(make_rule(p, False)))
+    d0 = to_int(p["dtstart"])
+    cands = [d0, d0 - 1, d0 + 1]
+    for x in ([L[-1], L[len(L) // 2], L[0]] if L else []):
+        cands += [x, x + 1, x - 1]
+    if len(L) >= 2:
+        cands.append((L[-1] + L[-2]) // 2)
+    out = []
+    for u in rng.sample(cands, min(k, len(cands))):
+        q = dict(p)
+        q["until"] = to_dt(u)
+        if rng.random() < 0.6:
+            del q["count"]
+            if not L or u > L[-1]:
+                q["until"] = to_dt(min(u, (L[-1] if L else d0) + 1))     # keep the rule finite and short
+                u = to_int(q["until"])
+        Lq = ints(list(make_rule(q, False)))
+        special = [u, u - 1, u + 1, d0, d0 - 1] + ([Lq[-1]] if Lq else [])
+        out.append((q, special))
+    return out
 
 
 # ---------------------------------------------------------------- queries
